@@ -226,7 +226,7 @@ func (s *Solver) Check(assertions []*Term, wantModel bool) (Result, Model) {
 	if res == Unknown {
 		res, m = s.fallback(as, wantModel)
 	} else if s.Cross {
-		r2, _ := s.oneShot("z3-new", []string{"-in"}, as, false, s.FallbackS)
+		r2, _ := s.oneShot("z3-new", []string{"-in"}, as, false, 10)
 		if r2 != Unknown && r2 != res {
 			s.Stats.CrossDiff++
 			fmt.Fprintf(os.Stderr, "SOLVER DISAGREEMENT: z3=%v z3-new=%v\n", res, r2)
